@@ -72,6 +72,26 @@ def _cb_result(idx):
     return [None, True, 'handled', 1, False][k]
 
 
+def _shared_group(case, raises_ok=False):
+    """One application handler subscribed through SEVERAL rules (`conn.addMatch(self.on_signal, ...)` called more than
+    once): in every second case the even-numbered rules all register the same method of one object - each time a freshly
+    obtained bound method, equal to the others.  It then has to run once per matching rule, like any other callback."""
+    if len(case['ops']) % 2 == 0:
+        return set()
+    return {i for i, r in enumerate(case['rules']) if i % 2 == 0 and (raises_ok or not r.get('raises'))}
+
+
+def _judge_shared(out, prefix, group, active, hits, rules, ab, oracle_rule):
+    if not group:
+        return
+    want = sum(1 for i in group if i in active and R.rule_matches(oracle_rule(rules[i]), ab))
+    got = hits.count('S')
+    if got != want:
+        out.append(Disc('%s.shared-callable:%s' % (prefix, 'missed' if got < want else 'extra'),
+                        'rules %r share one callable; message %r matches %d of the active ones, the callable ran %d times' % (
+                            [rules[i] for i in sorted(group) if i in active], ab, want, got)))
+
+
 class _Quit(BaseException):
     """What a callback raises when it is not an Exception (compare SystemExit, KeyboardInterrupt, CancelledError)."""
 
@@ -156,6 +176,8 @@ def run_router(case):
     active = {}    # rule index -> router id
     hits = []
     rules = case['rules']
+    group = _shared_group(case)
+    shared = _Subscriber(lambda m: hits.append('S'))
     try:
         for opi, op in enumerate(case['ops']):
             if op[0] == 'add':
@@ -179,6 +201,8 @@ def run_router(case):
                     cb = functools.partial(cb)           # a callable without __name__ / __qualname__
                 elif r.get('raises'):
                     cb = _CallableObject(cb)             # an instance with __call__ (no __name__ either)
+                if idx in group:
+                    cb = shared.on_message
                 kw = _router_kwargs(r)
                 active[idx] = rt.addMatch(cb, **kw)
                 _reuse_lists(kw, idx)
@@ -196,7 +220,8 @@ def run_router(case):
                     out.append(Disc('router.raises:%s' % type(e).__name__, exc_detail(e)))
                     break
                 ab = _abstract_for_oracle(m)
-                for idx in sorted(set(list(active) + hits)):
+                _judge_shared(out, 'router', group, active, hits, rules, ab, _rule_for_oracle)
+                for idx in sorted(set(list(active) + hits) - group - {'S'}):
                     want = 1 if (idx in active and R.rule_matches(_rule_for_oracle(rules[idx]), ab)) else 0
                     got = hits.count(idx)
                     if got != want:
@@ -217,6 +242,8 @@ def classify_router(case):
     keys = [repr(sorted((k, repr(v)) for k, v in r.items() if k not in ('raises', 'refuse_first'))) for r in case['rules']]
     if len(set(keys)) != len(keys):
         labels.append('identical_rules')
+    if len(_shared_group(case)) >= 2:
+        labels.append('one_callable_under_several_rules')
     if any(r.get('refuse_first') for r in case['rules']):
         labels.append('addmatch_refused_once')
     nt = False
@@ -417,6 +444,8 @@ def run_client(case):
     active = {}     # idx -> (rule_id, text)
     hits = []
     refused_once = set()
+    group = _shared_group(case, raises_ok=True)
+    shared = _Subscriber(lambda m: hits.append('S'))
     try:
         rig.sent_messages()
         for opi, op in enumerate(case['ops']):
@@ -431,6 +460,8 @@ def run_client(case):
                     return _cb_result(idx + 1)
                 if idx % 3 == 1:
                     cb = _Subscriber(cb).on_message      # a bound method of an object only the subscription keeps alive
+                if idx in group:
+                    cb = shared.on_message
                 kw = _router_kwargs(r)
                 d = rig.conn.addMatch(cb, mtype=kw['mtype'], interface=kw['interface'], member=kw['member'],
                                       path=kw['path'], path_namespace=kw['path_namespace'],
@@ -494,7 +525,8 @@ def run_client(case):
                     out.append(Disc('client.signal-dropped-connection', repr(m)))
                     break
                 ab = _abstract_for_oracle(dict(m, type=4))
-                for idx in sorted(set(list(active) + hits)):
+                _judge_shared(out, 'client', group, active, hits, rules, ab, _rule_for_oracle)
+                for idx in sorted(set(list(active) + hits) - group - {'S'}):
                     want = 1 if (idx in active and R.rule_matches(_rule_for_oracle(rules[idx]), ab)) else 0
                     got = hits.count(idx)
                     if got != want:
